@@ -198,7 +198,7 @@ def gen_case_c04(seed, tier):
             args = ["build"] + req + BASE_ARGS + ["-n", str(threads)]
             if rng.chance(0.3):
                 args.append("--keep_going")
-        runs.append({"args": args, "seed": subseed(seed, "run%d" % j), "policy": "", "num_stalls": 1 if rng.chance(0.25) else 0})
+        runs.append({"args": args, "seed": subseed(seed, "run%d" % j), "policy": "", "num_stalls": rng.choice([0, 0, 0, 1, 2, 3, 4]), "horizon": 1500})   # several suspensions in one run: every timed wait can expire more than once
     return {"spec": spec, "req": req, "runs": runs, "inj": inj}
 
 
